@@ -63,9 +63,19 @@ void sim_point(const char *file, int line, const volatile void *addr, int kind)
     if (g_atomic_hook) g_atomic_hook(file, line, addr, kind);
 }
 
+unsigned g_solo_yields;
 int sim_yield(void)
 {
     if (g_yield_hook) return g_yield_hook();
+    /* a world with a single thread of control: library code that yields the processor is waiting for something that
+     * only this very thread could do. A handful of yields is harmless, a thousand in one call is a deadlock. */
+    if (g_inlib && ++g_solo_yields > 1000) {
+        char key[160]; const char *op = "?";
+        if (g_run.world && g_run.world->opname) op = g_run.world->opname(g_run.opkind);
+        g_inlib = 0;
+        snprintf(key, sizeof key, "%s/no_progress/%s/%s", g_cur_prop ? g_cur_prop : "C00", op ? op : "?", g_cur_ctx && *g_cur_ctx ? g_cur_ctx : "-");
+        sim_violation(key, "library code yielded the processor 1000 times within one call although no other thread exists: it waits for itself");
+    }
     return 0;
 }
 
